@@ -585,6 +585,54 @@ def ref_path(root, segs, uk):
 
 # ====================================================================== the check
 
+def string_flag_family(ck: Check) -> None:
+    """size / first / last / indexes on STRINGS under the four combinations of the string_first_and_last and string_sequences
+    feature flags (oracle only: the Coq model has the default configuration).  Documented: with string_first_and_last the first /
+    last character, otherwise undefined; with string_sequences a string can be indexed; size is always the length; lists are not
+    affected.  Sync and async must agree."""
+    import liquid
+    from ..core import run_async
+
+    data = {"s": "hello", "e": "", "l": ["p", "q"], "d": {"first": "own"}}
+    paths = ["s.first", "s.last", "s.size", "s[0]", "s[-1]", "s[9]", "e.first", "e.last", "e.size", "l.first", "l.last", "l.size", "d.first",
+             "s['first']", 's["last"]']
+    for fl in (False, True):
+        for seq in (False, True):
+            env = type("Env", (liquid.Environment,), {"string_first_and_last": fl, "string_sequences": seq})()
+            for pth in paths:
+                src = "[{{ " + pth + " }}]"
+                t = env.from_string(src)
+                try:
+                    s_ = ("out", t.render(**data))
+                except Exception as e:  # noqa: BLE001
+                    s_ = ("err", classify_exc(e))
+                try:
+                    a_ = ("out", run_async(t.render_async(**data)))
+                except Exception as e:  # noqa: BLE001
+                    a_ = ("err", classify_exc(e))
+                want = None
+                base = pth.replace("['first']", ".first").replace('["last"]', ".last")
+                if base in ("s.first", "s.last"):
+                    want = ("h" if base.endswith("first") else "o") if fl else ""
+                elif base in ("e.first", "e.last"):
+                    want = ""
+                elif base in ("s.size", "e.size", "l.size"):
+                    want = {"s": "5", "e": "0", "l": "2"}[base[0]]
+                elif base in ("l.first", "l.last"):
+                    want = "p" if base.endswith("first") else "q"
+                elif base == "d.first":
+                    want = "own"
+                elif base in ("s[0]", "s[-1]", "s[9]"):
+                    want = {"s[0]": "h", "s[-1]": "o", "s[9]": ""}[base] if seq else ""
+                ck.note_case(("string-flags", fl, seq, pth))
+                ck.count("string-flags")
+                if s_ != a_ or (want is not None and s_ != ("out", f"[{want}]")):
+                    ck.violation("impl-violation", f"string-flags:{pth}:{int(fl)}{int(seq)}",
+                                 f"{src!r} with string_first_and_last={fl} string_sequences={seq} data {data!r}: sync={s_} async={a_} documented=[{want}]",
+                                 {"type": "string-flags", "template": src, "first_and_last": fl, "sequences": seq, "data": data,
+                                  "sync": s_, "async": a_, "reference": want})
+
+
 def run(ck: Check) -> None:  # noqa: PLR0912, PLR0915
     ck.rule = (
         "nests: every order of 1..3 binding constructs out of {for, with (literal / variable argument), include with arguments, include "
@@ -642,6 +690,7 @@ def run(ck: Check) -> None:  # noqa: PLR0912, PLR0915
         one(sig, case, nontrivial=any(case[k] for k in ("args", "matter", "tglobals", "eglobals")) or "builtin" in sig or sig == "counters")
     for sig, case in gen_falsy_shadow():
         one(sig, case)
+    string_flag_family(ck)
     for sig, case, pre0, pre1 in gen_interrupts(ck):
         s = one(sig, case)
         if case["mode"] == "lax":
